@@ -13,6 +13,10 @@ for sid in sorted(os.listdir(os.path.join(ROOT, "seeded"))):
     caught = ", ".join("%s (exit %d)" % (p, r["exit"]) for p, r in sorted(res.items())) or "—"
     diag = off.get("first_diagnosis") or ""
     mcode = re.match(r"\[([^\]]+)\]", diag)
+    farm = m.get("dev_farm")
+    if not res and farm:
+        caught = "%s (dev farm, exit %d)" % (farm["property"], farm["exit"])
+        mcode = re.match(r"(.*)", farm["monitors"][0]) if farm.get("monitors") else None
     esc = lambda t: t.replace("|", "\\|").replace("\n", " ")
     rows.append("| %s | %s | %s | %s | %s | %s |" % (sid, m["breaks_property"], esc(m["change"]), esc(m["needs_to_manifest"]), caught, ("`%s`" % mcode.group(1)) if mcode else ""))
 table = "| id | breaks | change | needs to manifest | official protocol: `./check <P> quick` | first monitor that fired |\n|---|---|---|---|---|---|\n" + "\n".join(rows) + "\n"
